@@ -123,7 +123,7 @@ fn compare_args(st: &mut Stats, c: &CmdSpec, cli: &[Cli], expect: &[Expect], m: 
                 .try_get_raw_occurrences(id)
                 .ok()
                 .flatten()
-                .map(|o| o.map(|v| v.map(|x| x.to_string_lossy().into_owned()).collect()).collect())
+                .map(|o| o.map(|v| v.map(|x| show_bytes(os_bytes(x))).collect()).collect())
                 .unwrap_or_default();
             // defaults with several values form one occurrence; compare flattened for Default/Env
             let same = if *esrc == Some(Src::Cli) { &occ == eocc } else { occ.concat() == eocc.concat() };
@@ -197,7 +197,17 @@ pub fn case(seed: u64, st: &mut Stats) {
             if rng.chance(1, 2) {
                 let var = format!("CLAPV_{}", i);
                 if rng.chance(2, 3) {
-                    let v = if a.delim.is_some() && rng.coin() { format!("x{}env0,x{}env1", i, i) } else { format!("x{}env", i) };
+                    let mut v = if a.delim.is_some() && rng.coin() { format!("x{}env0,x{}env1", i, i) } else { format!("x{}env", i) };
+                    // a variable may hold bytes that are not UTF-8 (`\xHH` = the raw byte); an
+                    // argument that takes OS strings has to get them unchanged
+                    if rng.chance(1, 4) {
+                        a.vp = Some(Vp::Os);
+                        v = match rng.below(3) {
+                            0 => format!("{}\\xE9", v),
+                            1 => format!("\\xFF{}", v),
+                            _ => v.replacen("env", "e\\xC3nv", 1),
+                        };
+                    }
                     env.insert(var.clone(), v);
                 }
                 a.env = Some(var);
@@ -281,7 +291,7 @@ pub fn case(seed: u64, st: &mut Stats) {
     for i in 0..8 {
         let var = format!("CLAPV_{}", i);
         match env.get(&var) {
-            Some(v) => std::env::set_var(&var, v),
+            Some(v) => std::env::set_var(&var, enc_escapes(v)),
             None => std::env::remove_var(&var),
         }
     }
@@ -373,6 +383,9 @@ pub fn case(seed: u64, st: &mut Stats) {
                 (Cli::Absent, tv) => {
                     if let Some(v) = a.env.as_ref().and_then(|v| env.get(v)) {
                         if tv {
+                            if v.contains("\\x") {
+                                st.count("lattice.env-value-not-utf8");
+                            }
                             expect[i] = (Some(Src::Env), vec![split_tok(a, v)], None);
                         } else if a.vp == Some(Vp::Falsey) {
                             let falsey = v.is_empty() || ["n", "no", "f", "false", "off", "0"].contains(&v.to_ascii_lowercase().as_str());
